@@ -168,7 +168,7 @@ func findErrorAssignment(assignments []gmodel.Assignment) (string, bool) {
 // If the types.Var doesn't have a name, defName is used instead.
 func (p *FunctionBuilder) createVar(v *types.Var, defName string) gmodel.Var {
 	name := v.Name()
-	if name == "" {
+	if name == "" || name == "_" {
 		name = defName
 	}
 
